@@ -360,6 +360,7 @@ pub fn prop() -> Prop {
         assumptions: &["the harness and the binary are two builds of the same library source; the comparison tolerates 1e-9", "extension/content mismatches under auto detection are not generated"],
         post: None,
         watchdog_s: 180,
+        hang_is_violation: false,
         shrink_iters: 500,
     }
 }
